@@ -183,6 +183,91 @@ impl<'tcx> Cx<'tcx> {
         obj(kv)
     }
 
+    /// The destructors of this crate that dropping a value of type `t` runs, in execution order: the type's own
+    /// `Drop::drop` first, then those of its fields.  `proj` is the path from the dropped place to the value the
+    /// destructor gets (same encoding as place projections; `{"opaque":true}` where the value sits behind a
+    /// foreign container such as Vec / Box / Arc), `maybe` says that it only runs for some values (enum variant,
+    /// container contents, last Arc).
+    fn drop_glue(&self, t: Ty<'tcx>, proj: &mut Vec<String>, maybe: bool, depth: usize, out: &mut Vec<String>) {
+        let tcx = self.tcx;
+        if depth > 5 || out.len() > 24 {
+            return;
+        }
+        match t.kind() {
+            ty::Adt(ad, args) => {
+                if ad.is_manually_drop() || ad.is_union() {
+                    return;
+                }
+                let mut foreign_dtor = false;
+                if let Some(d) = tcx.adt_destructor(ad.did()) {
+                    if d.did.is_local() {
+                        out.push(obj(vec![
+                            ("fn", esc(&self.path(d.did))),
+                            ("adt", esc(&self.path(ad.did()))),
+                            ("proj", arr(proj.clone())),
+                            ("maybe", jbool(maybe)),
+                        ]));
+                    } else {
+                        foreign_dtor = true;
+                    }
+                }
+                if !ad.did().is_local() && (foreign_dtor || ad.is_box() || !ad.variants().iter().all(|v| v.fields.iter().all(|f| f.vis.is_public()))) {
+                    // a foreign owning container (Vec, Box, Arc, Mutex, ..): whatever it holds may be dropped with it;
+                    // guards, iterators and other borrowing types own nothing
+                    let p = self.path(ad.did());
+                    let last = p.rsplit("::").next().unwrap_or("");
+                    const OWNING: &[&str] = &["Box", "Vec", "VecDeque", "Arc", "Rc", "Mutex", "RwLock", "Cell", "RefCell", "UnsafeCell",
+                        "SmallVec", "Pin", "PoisonError", "CachePadded", "LinkedList", "BinaryHeap"];
+                    if !OWNING.contains(&last) {
+                        return;
+                    }
+                    for a in args.iter() {
+                        if let Some(at) = a.as_type() {
+                            proj.push(obj(vec![("opaque", jbool(true)), ("via", esc(&p))]));
+                            self.drop_glue(at, proj, true, depth + 1, out);
+                            proj.pop();
+                        }
+                    }
+                    return;
+                }
+                let is_enum = ad.is_enum();
+                for (vi, var) in ad.variants().iter_enumerated() {
+                    for (fi, f) in var.fields.iter_enumerated() {
+                        let fty = f.ty(tcx, args);
+                        let n0 = proj.len();
+                        if is_enum {
+                            let dv = ad.discriminant_for_variant(tcx, vi).val;
+                            proj.push(obj(vec![("downcast", esc(&var.name.to_string())), ("dv", esc(&format!("{}", dv)))]));
+                        }
+                        let mut kv = vec![("i", format!("{}", fi.as_usize()))];
+                        kv.push(("adt", esc(&self.path(ad.did()))));
+                        kv.push(("f", esc(&f.name.to_string())));
+                        if is_enum {
+                            kv.push(("v", esc(&var.name.to_string())));
+                        }
+                        kv.push(("ty", esc(&self.ty_s(fty))));
+                        proj.push(obj(kv));
+                        self.drop_glue(fty, proj, maybe || is_enum, depth + 1, out);
+                        proj.truncate(n0);
+                    }
+                }
+            }
+            ty::Tuple(ts) => {
+                for (i, et) in ts.iter().enumerate() {
+                    proj.push(obj(vec![("i", format!("{}", i)), ("tuple", jbool(true)), ("ty", esc(&self.ty_s(et)))]));
+                    self.drop_glue(et, proj, maybe, depth + 1, out);
+                    proj.pop();
+                }
+            }
+            ty::Array(et, _) | ty::Slice(et) => {
+                proj.push(obj(vec![("opaque", jbool(true))]));
+                self.drop_glue(*et, proj, true, depth + 1, out);
+                proj.pop();
+            }
+            _ => {}
+        }
+    }
+
     fn place_j(&self, body: &Body<'tcx>, p: &Place<'tcx>) -> String {
         let tcx = self.tcx;
         let mut pty = mir::PlaceTy::from_ty(body.local_decls[p.local].ty);
@@ -540,6 +625,11 @@ impl<'tcx> Cx<'tcx> {
                     ("k", esc("drop")),
                     ("pl", self.place_j(body, place)),
                     ("dty", self.ty_j(place.ty(&body.local_decls, tcx).ty)),
+                    ("glue", {
+                        let mut out = vec![];
+                        self.drop_glue(place.ty(&body.local_decls, tcx).ty, &mut vec![], false, 0, &mut out);
+                        arr(out)
+                    }),
                     ("t", format!("{}", target.as_usize())),
                 ]),
                 TerminatorKind::Assert { cond, expected, target, msg, .. } => obj(vec![
@@ -577,6 +667,19 @@ impl<'tcx> Cx<'tcx> {
                                 })
                                 .collect();
                             kv.push(("gtys", arr(gt)));
+                            // `mem::drop(v)` / `ptr::drop_in_place(p)`: the destructors of this crate that run
+                            {
+                                let cp = self.path(*cdid);
+                                if cp == "std::mem::drop" || cp == "core::mem::drop" || cp.ends_with("ptr::drop_in_place")
+                                    || cp.ends_with("::drop_in_place") {
+                                    if let Some(t0) = cargs.iter().next().and_then(|a| a.as_type()) {
+                                        let mut out = vec![];
+                                        self.drop_glue(t0, &mut vec![], false, 0, &mut out);
+                                        kv.push(("glue", arr(out)));
+                                        kv.push(("glue_of", esc(if cp.ends_with("mem::drop") { "value" } else { "pointee" })));
+                                    }
+                                }
+                            }
                             // trait method?
                             if let Some(tr) = tcx.trait_of_assoc(*cdid) {
                                 kv.push(("trait", esc(&self.path(tr))));
@@ -661,6 +764,7 @@ impl<'tcx> Cx<'tcx> {
                     fields.push(obj(vec![
                         ("name", esc(&f.name.to_string())),
                         ("ty", self.ty_j(fty)),
+                        ("needs_drop", jbool(fty.needs_drop(tcx, ty::TypingEnv::post_analysis(tcx, did)))),
                         ("vis", esc(&format!("{:?}", f.vis))),
                     ]));
                 }
